@@ -958,7 +958,7 @@ def gen_c12_pool(r, deep=0):
     # a running balance written term by term (supply - demand_0 - demand_1 - ... >= k): affine with
     # constant partial derivatives, the parameters are purely additive; `deep` extra terms
     bal = pick(2)
-    terms = [L(bal[0]), ["*", ["num", r.choice(POS)], L(bal[-1])]] if len(bal) > 1 else [L(bal[0])]
+    terms = [L(bal[0]), (["*", ["num", r.choice(POS)], L(bal[-1])] if r.random() < 0.4 else L(bal[-1]))] if len(bal) > 1 else [L(bal[0])]
     terms += [["neg", p] for p in r.sample(pl, min(len(pl), r.choice([1, 2])))]
     ex["gd"] = ["chain", "+", terms + [["num", 0.0]] * deep]
     cons["cd"] = {"k": "s", "lhs": ["chain", "+", terms + [["num", 0.0]] * deep], "sense": ">=", "rhs": ["num", r.choice([-2.0, 0.0, 0.5])]}
